@@ -310,13 +310,6 @@ Qed.
 
 Lemma squeeze_exo spec : clean spec = true -> squeeze ("EXOGENOUS " ++ spec) = "EXOGENOUS" ++ spec.
 Proof.
-  intros H. destruct spec as [|c spec]; [reflexivity|].
-  rewrite squeeze_end; [reflexivity|reflexivity|discriminate| |exact H].
-  Fail reflexivity.
-Abort.
-
-Lemma squeeze_exo spec : clean spec = true -> squeeze ("EXOGENOUS " ++ spec) = "EXOGENOUS" ++ spec.
-Proof.
   intros H. unfold squeeze, strip. destruct spec as [|c spec]; [reflexivity|].
   assert (HR : rstrip ("EXOGENOUS " ++ String c spec) = "EXOGENOUS " ++ String c spec).
   { rewrite rstrip_app; rewrite (rstrip_clean _ H); [reflexivity|discriminate]. }
